@@ -110,6 +110,21 @@ def expand(case):
             else:
                 out.append({"group": "g/sweep", "members": [specs[i], fresh]})
         return out
+    if g[0] == "bigfirst":
+        # a few small records, then the FIRST record of a type (plain / the nested member of a known holder / a grouped member)
+        # carries a value of n bytes - its descriptor has to be on the wire before it however the writer batches - then small ones
+        n, form = g[1], g[2]
+        big = rs("t/bigfirst", [["bytes", "blob"], ["string", "tag"]], ["S(b'\\x07', %d)" % n, "'big'"])
+        small = rs("t/bigfirst", [["bytes", "blob"], ["string", "tag"]], ["b'x'", "'small'"])
+        if form == "plain":
+            mid = [big, small]
+        elif form == "nested":
+            mid = [rs("t/bighold", [["record", "sub"], ["string", "tag"]], [big, "'h'"]), small]
+        elif form == "list":
+            mid = [rs("t/bigholds", [["record[]", "subs"]], [[A, big]]), small]
+        else:
+            mid = [{"group": "g/big", "members": [A, big]}, small]
+        return [A, A2, A] + mid + [A, C]
     if g[0] == "stride":
         # N equal records of one type whose frame length is odd: the frame starts take every residue modulo any block size <= N,
         # so a reader or writer working in blocks of 4 KiB .. 64 KiB (1 MiB in thorough) meets every split of prefix and body
@@ -212,6 +227,9 @@ def long_cases(tier):
     for b in ([4096, 8192, 65536, 131072] + ([16384, 32768, 262144, 1 << 20] if thorough else [])):
         for delta in range(-6, 7):
             yield {"kind": "s6", "t": "align", "light": True, "gen": ["align", b, delta]}
+    for form in ("plain", "nested", "list", "grouped"):
+        for n in ([4096, 8192, 65536 - 64, 65536, 100000, 131072 + 5] + ([16384, 32768, 262144, (1 << 20) + 1, 3 << 20] if thorough else [])):
+            yield {"kind": "s6", "t": "bigfirst", "light": True, "gen": ["bigfirst", n, form]}
     yield {"kind": "s6", "t": "stride", "light": True, "gen": ["stride", 65536 + 9]}
     if thorough:
         yield {"kind": "s6", "t": "stride", "light": True, "gen": ["stride", (1 << 20) + 9]}
